@@ -280,3 +280,23 @@ _MODS["cli09"] = type("M", (), {"run": staticmethod(cli09.run), "case": staticme
 PROPS["C08"]["streams"] = [G, G_ENF, G_COND, CH, PLAN, CW,
                            {"profile": "greedy", "opts": {"p_batch_loader": 0, "p_cut": 0.6}},
                            {"profile": "chaos", "opts": {"p_batch_loader": 0, "p_cut": 0.6}}]
+
+# ------------------------------------------------------------------ Z3 (shadow probes only)
+G_Z3 = {"profile": "greedy", "opts": {"p_batch_loader": 0, "p_z3_probe": 1.0, "max_nodes": 3, "graphs": 1,
+                                      "max_invocations": 2}}
+PROPS["C10"]["streams"] = [G, PLAN, G_ENF, PLAN, CH, CW, G_Z3]
+PROPS["C11"]["streams"] = [PLAN_ILP, {"profile": "plan", "opts": dict(world.PLAN_OPTS, policy="TetriSchedGurobi")},
+                           G_Z3]
+PROPS["C11"]["nontrivial"] = lambda r: (r["probes"].get("c11_parent_and_child_codecided", 0) +
+                                        r["probes"].get("c11_running_parent", 0) +
+                                        r["probes"].get("c11_scheduled_parent", 0) +
+                                        r["probes"].get("z3_c11_codecided", 0)) > 0
+for _p in ("C10", "C11"):
+    PROPS[_p]["stub"] = PROPS[_p].get("stub", []) + [
+        "Z3Scheduler is only shadow-probed (invoked on the live state of greedy-driven runs with <=4 offered "
+        "tasks, z3 rlimit 3e6, answer checked and discarded); it cannot be driven end-to-end"]
+
+# ------------------------------------------------------------------ conditionals whose branch heads have a side input
+G_SIDE = {"profile": "greedy", "opts": {"p_batch_loader": 0, "p_conditionals": 1.0, "p_side_input": 0.6}}
+CH_SIDE = {"profile": "chaos", "opts": {"p_batch_loader": 0, "p_conditionals": 1.0, "p_side_input": 0.6}}
+PROPS["C02"]["streams"] = [G, CH, G_COND, CH_COND, PLAN, G_SIDE, CH_SIDE]
